@@ -24,7 +24,8 @@ MANIFEST = dict(
          "computes it (driver_evaluates_spec); splitting at a jump is exact (split_sem: pre [n-m] post matches iff pre and post match with a gap in [n,m] - the re-joining rule "
          "of chained strings); verification around atoms loses and invents nothing when one atom is chosen on every way through the pattern (decompose); the chain "
          "bookkeeping of scan.c (model of _yr_scan_verify_chained_string_match) never confirms a wrong pair (chain_sound, any arrival order) and confirms every legal pair of a "
-         "two-piece chain under the hypotheses H1-H3 (chain_exact_partial, chain_matches_spec_partial: H1 = candidates in start order is what finding F13 violates, H2 = one "
+         "two-piece chain under the hypotheses H1-H3 (chain_exact_partial, chain_matches_spec_partial: H1 = a later tail candidate starts at most YR_RE_SCAN_LIMIT + YR_MAX_ATOM_LENGTH "
+         "bytes before an earlier one, which the real candidate stream satisfies since fix 81c4ffe widened the pruning window (former finding F13), H2 = one "
          "length per head offset is what finding C02-chain-single-length violates); the bytecode VM model (yr_re_exec) is sound on the code of the emit model for the WHOLE hex "
          "fragment - bytes, masks, negations, jumps, nested alternatives - in forward direction (vm_sound_partial). NOT proved: VM soundness for backward code and for the fast "
          "matcher yr_re_fast_exec, VM completeness, chains of more than two pieces, atom extraction and Aho-Corasick. That gap is covered by SAMPLING on every run: generated patterns x buffers through the real engine vs. the compiled Lean specification "
@@ -32,8 +33,8 @@ MANIFEST = dict(
          "order), the whole-pattern code run exhaustively vs. the specification, and the Lean emit model vs. the bytes yr_re_ast_emit_code writes.",
     design_ref="DESIGN.md §4 D6/D7, §5 C02",
     note=core.TB + "The hex printer and the oracle comparator (vf/checks/re_common.py) are trusted (the printer is inside the AST tie). Spec decisions: a chained string reports "
-                   "ONE admissible length; matches never span blocks; every piece stays below the 1024-byte window YR_RE_SCAN_LIMIT. Known findings F13 and "
-                   "C02-chain-single-length (known_findings.json) excuse only MISSED offsets of chained patterns whose pieces have the listed shape; a model/code tie broken "
+                   "ONE admissible length; matches never span blocks; every piece stays below the 1024-byte window YR_RE_SCAN_LIMIT. Known finding "
+                   "C02-chain-single-length (known_findings.json) excuses only MISSED offsets of chained patterns whose head pieces have several lengths; a model/code tie broken "
                    "without a property-level failing input is reported as `no-failing-input-found`.")
 
 VALS = [0x01, 0x02, 0x03, 0x04, 0x11, 0x41, 0x42, 0x61, 0xAA, 0xBB, 0xCC, 0x00, 0xFF, 0x20, 0x0A]
@@ -349,7 +350,7 @@ def gen_case(r, cid):
 
 
 CORPUS = [
-    # F13 (chain pruning) and relatives
+    # chain pruning (F13, fixed by 81c4ffe) and relatives
     ("01 02 03 04 [0-300] ( AA BB CC DD | 11 ?? ?? ?? ?? 66 77 88 99 )", bytes([1, 2, 3, 4]) + b"\0" * 300 + bytes([0x11, 0xAA, 0xBB, 0xCC, 0xDD, 0x66, 0x77, 0x88, 0x99])),
     ("01 02 03 04 [0-300] ( AA BB CC DD | 11 ?? ?? ?? ?? 66 77 88 99 )", bytes([1, 2, 3, 4]) + b"\0" * 300 + bytes([0x11, 0xA0, 0xBB, 0xCC, 0xDD, 0x66, 0x77, 0x88, 0x99])),
     ("01 02 [201] 03 04", bytes([1, 2]) + b"\x41" * 201 + bytes([3, 4])),
@@ -549,12 +550,10 @@ def classify_known(kf, meta, case, viol, d):
         return None
     seq = meta.get("seq")
     if seq is None:
-        return "F13" if meta.get("corpus") and "F13" in kf else None
+        return None
     ps, _ = pieces(seq)
     if "C02-chain-single-length" in kf and any(variable_len(p) for p in ps[:-1]):
         return "C02-chain-single-length"
-    if "F13" in kf and any(variable_len(p) or has_alt(p) for p in ps[1:]):
-        return "F13"
     return None
 
 
